@@ -148,7 +148,44 @@ func (r *FnRun) inStack(st *State, f *ssa.Function) bool {
 	return false
 }
 
+// atCallAsserts checks "atcall callee#n" clauses of the function being executed.
+func (r *FnRun) atCallAsserts(st *State, fr *frame, instr ssa.Instruction, f *ssa.Function) {
+	if fr.fc == nil {
+		return
+	}
+	name := f.String()
+	if r.eng.isRepoPkg(pkgOfFn(f)) {
+		name = r.eng.relName(f)
+	} else if i := strings.LastIndex(name, "/"); i >= 0 && strings.HasPrefix(name, "(*") {
+		name = "(*" + name[i+1:]
+	} else if i >= 0 {
+		name = name[i+1:]
+	}
+	has := false
+	for _, c := range fr.fc.Clauses {
+		if c.Kind == "atcall" && c.Name == name {
+			has = true
+		}
+	}
+	if !has {
+		return
+	}
+	st.callOrd["atcall:"+name]++
+	ord := st.callOrd["atcall:"+name]
+	for _, c := range fr.fc.Clauses {
+		if c.Kind == "atcall" && c.Name == name && c.N == ord {
+			t, err := r.evalClause(st, fr, c, nil, "atcall "+name)
+			if err != nil {
+				r.errs = append(r.errs, err.Error())
+				continue
+			}
+			r.oblige(st, "atcall", lbl(c, name), c.Tags, t, r.posOf(instr), fmt.Sprintf("call %s#%d", name, ord))
+		}
+	}
+}
+
 func (r *FnRun) callStatic(st *State, fr *frame, instr ssa.Instruction, f *ssa.Function, binds []*V, args []*V, k func(*State, *V)) {
+	r.atCallAsserts(st, fr, instr, f)
 	key := f.String()
 	if m, ok := extModels[key]; ok {
 		r.modelsUsed[key] = true
@@ -601,7 +638,7 @@ func callEventArgs(recv *V, args []*V, res []*V) []string {
 	}
 	j := 5
 	for _, v := range res {
-		for _, l := range leaves(v) {
+		for _, l := range intLeaves(v) {
 			if j > 7 {
 				break
 			}
@@ -1165,7 +1202,7 @@ func (r *FnRun) execSendOn(st *State, fr *frame, ins ssa.Instruction, chv ssa.Va
 		r.oblige(st, "send-inv", name, c.Tags, t, r.posOf(ins), fmt.Sprintf("b%d", ins.Block().Index))
 	}
 	ids := []string{ch.S}
-	for _, l := range leaves(msg) {
+	for _, l := range intLeaves(msg) {
 		if len(ids) < 8 {
 			ids = append(ids, l)
 		}
